@@ -116,10 +116,20 @@ func main() {
 	}
 	o := &out{w: bufio.NewWriterSize(f, 1<<20)}
 	genOnly := *genOnlyFlag
+	// <out>.cur always holds the input being run: after a fatal crash of the process (Go stack overflow, out of memory:
+	// nothing recover() sees) bin/check reads it and reports that input as the replay of the crash.
+	var cur *os.File
+	if *outPath != "" && !genOnly {
+		cur, _ = os.Create(*outPath + ".cur")
+	}
 	runOne := func(in string) {
 		if genOnly {
 			o.emit(in, "")
 			return
+		}
+		if cur != nil {
+			_ = cur.Truncate(0)
+			_, _ = cur.WriteAt([]byte(in), 0)
 		}
 		// watchdog: the code under test may loop without polling its context; a goroutine cannot be
 		// killed, so report the hang as this case's observation and stop the run.
@@ -142,6 +152,10 @@ func main() {
 		su.gen(*tier, &rng{s: *seed}, runOne)
 	}
 	o.w.Flush()
+	if cur != nil {
+		cur.Close()
+		os.Remove(*outPath + ".cur")
+	}
 	for _, c := range cleanups {
 		c()
 	}
